@@ -21,6 +21,8 @@ class Prog:
 
 def make_holes(p, h):
     hf = {}; hb = {}
+    # the harness registers hf0__..hf11__ and hb0__..hb7__: a program needing more must not run (its extra holes would read as undefined variables)
+    if any(i > 11 for i in p.fholes) or any(i > 7 for i in p.bholes): raise RuntimeError('program needs more hole operators than harness/w_vm.cpp registers')
     for i, dom in p.fholes.items():
         x = rt.fresh_f32('hf%d' % i)
         if isinstance(dom, (list, tuple)) and dom and dom[0] == 'range':
